@@ -56,6 +56,10 @@ func (g *srcGen) tag(allowPlenc bool, next *int) string {
 	if g.r.IntN(8) == 0 {
 		parts = append(parts, []string{`xml:"x,attr"`, `yaml:"y"`, `db:"d" validate:"required,min=3"`}[g.r.IntN(3)])
 	}
+	if g.r.IntN(14) == 0 {
+		// keys and values that merely look like plenc's
+		parts = append(parts, []string{`oldplenc:"7"`, `help:"stored under plenc: index"`, `xplenc:"-"`, `doc:"plenc:\"3\""`, `plenc2:"1"`}[g.r.IntN(5)])
+	}
 	if allowPlenc && g.r.IntN(3) == 0 {
 		switch g.r.IntN(6) {
 		case 0:
